@@ -856,7 +856,7 @@ impl Engine for ShellSim {
         }
         // 3a. fault schedules: a send failure on a link whose RTT probe is outstanding (the reset cancels the probe; an
         //     echo that still arrives on the unchanged socket is no sample)
-        if fault && rng.random_range(0..12) == 0 {
+        if self.profile == "fault" && rng.random_range(0..20) == 0 {
             if let Some(l) = (0..self.n).find(|i| self.conns[*i].connected && self.conns[*i].rtt.waiting_for_keepalive_response && !self.sendfail[*i]) {
                 self.bump("send_failure_while_probe_outstanding");
                 return Some(json!({"ev": "SendFail", "l": l + 1}));
